@@ -41,6 +41,22 @@ def emission_like_program(rng, n_e, n_p, length):
     return prog
 
 
+def feed_forward_program(rng, n_e, n_p, length):
+    """emission-like programs with classically controlled corrections (no reset) in between: a photon (or emitter) is
+    measured and an X / Z correction lands on an emitter or a photon. Resets are still only the measure-and-reset ones."""
+    prog = emission_like_program(rng, n_e, n_p, length)
+    regs_e = [["e", i] for i in range(n_e)]
+    regs_p = [["p", i] for i in range(n_p)]
+    for _ in range(rng.randint(1, 3)):
+        k = rng.choice(["ClassicalCNOT", "ClassicalCZ"])
+        if rng.random() < 0.5 or n_e < 2:
+            pair = [rng.choice(regs_p), rng.choice(regs_e)] if rng.random() < 0.6 else [rng.choice(regs_e), rng.choice(regs_p)]
+        else:
+            pair = rng.sample(regs_e, 2)
+        prog.insert(rng.randrange(len(prog) + 1), {"k": k, "r": pair, "c": 0})
+    return prog
+
+
 SHARED = {}
 
 
@@ -77,14 +93,14 @@ def metric_events(circuit, rng):
     return evs
 
 
-def trace_for(tid, circuit, rng, meta, warm=False):
+def trace_for(tid, circuit, rng, meta, warm=False, skip=()):
     if warm:
         try:
             _ = circuit.register_depth, circuit.depth      # a query BEFORE the metrics (caches, if any, get filled)
         except Exception:
             pass
     before, _ = cz.project_circuit(circuit)
-    evs = metric_events(circuit, rng)
+    evs = [e for e in metric_events(circuit, rng) if e.get("name") not in skip]
     after, _ = cz.project_circuit(circuit)
     evs.append({"fn": "unchanged", "circ": after})
     return {"tid": tid, "meta": meta, "circ": before, "events": evs}
@@ -101,6 +117,14 @@ def run(ctx):
         prog = emission_like_program(rng, n_e, n_p, rng.randint(0, 12))
         tid += 1
         traces.append(trace_for(tid, cz.build_circuit(n_e, n_p, 1, prog), rng, {"kind": "random", "program": prog}))
+    # feed-forward circuits (classically controlled corrections touching emitters between the resets); "number of
+    # measurements" is not judged on them (whether a classically controlled gate counts as one is not stated anywhere)
+    for _ in range(30 if ctx.quick else 800):
+        n_e, n_p = rng.randint(1, 3), rng.randint(1, 3)
+        prog = feed_forward_program(rng, n_e, n_p, rng.randint(2, 12))
+        tid += 1
+        traces.append(trace_for(tid, cz.build_circuit(n_e, n_p, 1, prog), rng, {"kind": "feed-forward", "program": prog},
+                                skip=("CircuitMeasureCount",)))
     # edit-then-measure histories: metrics and register depths are re-evaluated after removals / insertions on the SAME
     # circuit object (each round is judged against a fresh projection)
     from graphiq.circuit import ops as gops
@@ -151,4 +175,6 @@ def run(ctx):
             traces.append(trace_for(tid, circuit, rng, {"kind": "solver", "edges": cz.graph_edges1(g)}))
     ctx.judge("Trace_Metrics", traces, label="J: metric classes (default and explicit penalty) on circuits")
     ctx.assumptions.append("emitter depth / reset depth / effective depth / measurement count are judged on circuits whose "
-                           "only measuring operations are emitter-controlled measure-and-reset operations on photons")
+                           "only RESETTING operations are emitter-controlled measure-and-reset operations on photons; "
+                           "classically controlled X / Z corrections may touch emitters (they are not resets); the "
+                           "measurement count is not judged on circuits that contain them")
